@@ -127,6 +127,11 @@ def key_of_value(model, fi, facts, v, obj, depth=0):
     """[(facts, components)] for a key expression: a tuple display, or a (memoised) property returning one."""
     if v[0] == "tuple":
         return [(facts, v[1])]
+    if v[0] == "binop" and v[1] == "Add" and depth < 3 and all(x[0] in ("tuple", "binop") for x in v[2:4]):
+        # tuple concatenation: the key is the components of both operands in order
+        return [({**f1, **f2}, tuple(c1) + tuple(c2))
+                for f1, c1 in key_of_value(model, fi, facts, v[2], obj, depth + 1)
+                for f2, c2 in key_of_value(model, fi, facts, v[3], obj, depth + 1)]
     if v[0] == "attr" and v[1] == obj and model.has_func(f"_url.URL.{v[2]}") and depth < 3:
         pf = model.func(f"_url.URL.{v[2]}")
         r = analyze(model, pf, merge=False)
@@ -140,7 +145,44 @@ def key_of_value(model, fi, facts, v, obj, depth=0):
     if any(t[0] == "attr" and t[2] == "_cache" for t in walk(v)):
         raise KeyFromCache(f"{fi.qual}: the comparison key {show(v)[:70]} is read from the object's cache: it depends on which "
                            "accessors were used before (pickling, copying), not only on the URL's value")
+    fields = text_key_fields(model, v, obj)
+    if fields:
+        raise TextKey(f"{fi.qual}: the comparison key {show(v)[:70]} is one text assembled from the stored fields "
+                      f"{', '.join(fields)}: different field tuples give the same text (e.g. path 'a?b' with no query and path 'a' "
+                      "with query 'b', both reachable through encoded=True)")
     raise AnalysisError(f"{fi.qual}: comparison key {show(v)} is neither a tuple display nor a property returning one")
+
+
+class TextKey(AnalysisError):
+    """The key is a string that concatenates two or more stored (verbatim-settable) text fields: not one-to-one."""
+
+
+def text_key_fields(model, v, obj):
+    """Names of the stored fields of `obj` that the text-valued key expression v concatenates - directly (f-string, +, %,
+    format, join) or through one package function whose return templates are instantiated with the call's arguments.
+    [] when v is not such a template or mentions fewer than two fields."""
+    from ..strtpl import flatten
+    from .pickle import slots_of, _subst
+    slots = {x for x in slots_of(model)[0] if x != "_cache"}
+    templates = [v]
+    if v[0] == "call" and v[1][0] == "global" and not v[3] and model.has_func(f"{v[1][1]}.{v[1][2]}"):
+        g = model.func(f"{v[1][1]}.{v[1][2]}")
+        params = [a.arg for a in g.node.args.posonlyargs + g.node.args.args]
+        if len(params) >= len(v[2]):
+            bind = {("param", p): a for p, a in zip(params, v[2])}
+            templates = [_subst(rv, bind) for _s, rv, _n in analyze(model, g).returns]
+    best = []
+    for t in templates:
+        parts = flatten(t)
+        if len(parts) < 2:
+            continue
+        got = []
+        for p in parts:
+            if p[0] != "lit" and p[1][0] == "attr" and p[1][1] == obj and p[1][2] in slots and p[1][2] not in got:
+                got.append(p[1][2])
+        if len(got) >= 2 and len(got) > len(best):
+            best = got
+    return best
 
 
 def rename_obj(t, a, b):
@@ -293,8 +335,15 @@ def cmp_rules(ctx: Ctx):
                    sample=f"{op} with self on the left")
             if not ok:
                 continue
-            ta = cells_of(key_of_value(model, fi, s.facts, v[2], S), S, f"{name} (self side)")
-            tb = cells_of(key_of_value(model, fi, s.facts, v[3], O), O, f"{name} (other side)")
+            try:
+                ta = cells_of(key_of_value(model, fi, s.facts, v[2], S), S, f"{name} (self side)")
+                tb = cells_of(key_of_value(model, fi, s.facts, v[3], O), O, f"{name} (other side)")
+            except TextKey as e:
+                # == compares the field tuple (t_self was extracted above), the order compares one text: not the same key
+                ctx.instance("CMP2")
+                ctx.ob("CMP2", fi.qual, f"ordering key of {name}", False,
+                       f"{e}: a <= b and b <= a hold for URLs that == tells apart", where(fi, node))
+                continue
             tables[name] = ta
             ctx.instance("CMP2")
             ctx.ob("CMP2", fi.qual, f"ordering key of {name}", ta == tb and _same_components(ta, t_self) and all(ta == t for t in tables.values()),
